@@ -48,6 +48,12 @@
 #define XV_CONTRACT_w_div_sf VS __CPROVER_ensures(IS(FD(A, *s), FD(B, *s))) PURE
 #define XV_CONTRACT_w_add_sf VS __CPROVER_ensures(IS(A + *s, B)) PURE
 #define XV_CONTRACT_w_sub_sf VS __CPROVER_ensures(IS(A - *s, B)) PURE
+#define XV_CONTRACT_w_sadd_f VS __CPROVER_ensures(IS(*s + A, B)) PURE
+#define XV_CONTRACT_w_ssub_f VS __CPROVER_ensures(IS(*s - A, 0.0f - B)) PURE
+/* s / a is the complex quotient (s + 0i) / a: textbook formula with dividend (s, 0) */
+#define XV_CONTRACT_w_sdiv_f VS __CPROVER_ensures(IS(FD(FA(FM(*s, A), FM(0.0f, B)), FA(FM(A, A), FM(B, B))), FD(FS(FM(0.0f, A), FM(*s, B)), FA(FM(A, A), FM(B, B))))) PURE
+/* a / s in ieee mode divides both parts by s */
+#define XV_CONTRACT_w_div_st VS __CPROVER_ensures(IS(FD(A, *s), FD(B, *s))) PURE
 /* reference closures: same results as value closures, operands read through the referents */
 #define RA (*a->m_real)
 #define RB (*a->m_imag)
@@ -97,3 +103,11 @@
 #endif
 #define XV_CONTRACT_w_diveq_t VV __CPROVER_ensures((INFZ(__CPROVER_old(A), __CPROVER_old(B)) && FINZ(C, D)) ==> INFZ(A, B)) \
   __CPROVER_ensures((FINZ(__CPROVER_old(A), __CPROVER_old(B)) && INFZ(C, D) && XV_ISFIN_f(fabsf(__CPROVER_old(A)) + fabsf(__CPROVER_old(B)))) ==> ZEROZ(A, B)) __CPROVER_assigns(*a)
+
+/* real / complex in ieee mode: the Annex G clauses and the scaling clause for the dividend (s, 0) and the divisor a */
+#define XV_CONTRACT_w_sdiv_t VS \
+  __CPROVER_ensures((XV_ISINF_f(*s) && FINZ(A, B)) ==> INFZ(RV.m_real, RV.m_imag)) \
+  __CPROVER_ensures((XV_ISFIN_f(*s) && INFZ(A, B)) ==> ZEROZ(RV.m_real, RV.m_imag)) \
+  __CPROVER_ensures(((XV_ISINF_f(*s) || (XV_ISFIN_f(*s) && *s != 0.0f)) && ZEROZ(A, B)) ==> INFZ(RV.m_real, RV.m_imag)) \
+  __CPROVER_ensures((XV_ISFIN_f(*s) && FINZ(A, B) && !ZEROZ(A, B)) ==> !NANNAN(RV.m_real, RV.m_imag)) \
+  __CPROVER_ensures((POW2(A) && B == 0.0f && XV_ISFIN_f(*s)) ==> FEQ(RV.m_real, *s / A)) PURE
